@@ -249,7 +249,8 @@ class Back:
         self.it.call(g, [0], this=self.loop)         # Mode::kOnce
 
 
-SPEC = [(5, R_, False, None), (5, R_ | W_, True, None), (6, R_, False, ('dis', 0)), (5, W_, False, ('destroy', 1)), (6, R_, False, ('dis', 4)), (5, R_, False, ('dis', 2))]
+SPEC = [(5, R_, False, None), (5, R_ | W_, True, None), (6, R_, False, ('dis', 0)), (5, W_, False, ('destroy', 1)), (6, R_, False, ('dis', 4)), (5, R_, False, ('dis', 2)),
+        (0, R_, False, None)]         # descriptor 0 is a descriptor like any other
 
 
 def run_script(prog, kind, script):
@@ -294,7 +295,7 @@ def run_script(prog, kind, script):
 
 def r12(ctx, prog):
     depth = 5 if ctx.tier == 'thorough' else 4
-    alpha = [('en', i) for i in range(len(SPEC))] + [('dis', 0), ('dis', 3)] + [('ready', 5, 'r'), ('ready', 5, 'w'), ('ready', 6, 'r'), ('ready', 6, 'h'), ('pass',)]
+    alpha = [('en', i) for i in range(len(SPEC))] + [('dis', 0), ('dis', 3)] + [('ready', 5, 'r'), ('ready', 5, 'w'), ('ready', 6, 'r'), ('ready', 6, 'h'), ('ready', 0, 'r'), ('pass',)]
     scripts = []
     for n in range(2, depth + 1):
         for s_ in itertools.product(alpha, repeat=n):
@@ -303,10 +304,10 @@ def r12(ctx, prog):
             scripts.append(s_)
     full = tuple(('en', i) for i in range(len(SPEC)))
     for rd in ([('ready', 5, 'r')], [('ready', 5, 'w')], [('ready', 5, 'r'), ('ready', 6, 'r')], [('ready', 5, 'r'), ('ready', 5, 'w'), ('ready', 6, 'r')], [('ready', 6, 'h')],
-               [('ready', 5, 'w'), ('ready', 6, 'r')]):
+               [('ready', 5, 'w'), ('ready', 6, 'r')], [('ready', 5, 'r'), ('ready', 0, 'r')], [('ready', 0, 'r'), ('ready', 6, 'r')]):
         scripts.append(full + tuple(rd) + (('pass',), ('pass',), ('en', 1), ('en', 0), ('pass',)))
         scripts.append(full[::-1] + tuple(rd) + (('pass',), ('pass',)))
-    ctx.rule('C03.R12', 'A10 one pass of both back-ends by abstract replay: %d scripts of up to %d steps (enable / disable of six descriptor events on two descriptors — persistent and '
+    ctx.rule('C03.R12', 'A10 one pass of both back-ends by abstract replay: %d scripts of up to %d steps (enable / disable of seven descriptor events on three descriptors (0 among them) — persistent and '
              'one-shot, read / write, callbacks that disable the running event, an event on the same or on the other descriptor, or destroy another event — readiness toggled for '
              'read, write and hang-up, loop passes) run on the syntax trees of runLoop (one pass), refFdSharedData / unrefFdSharedData, fillFdSets with the FD_* macros, and the '
              'descriptor events of both back-ends over a model of the kernel (the epoll interest list with EEXIST / ENOENT as faults; the sets of select cut down to what is ready): a '
